@@ -475,4 +475,86 @@ pub(crate) mod b {
         }
         println!("BOUNDED-CASES {}", n);
     }
+
+    /// C16 + C17: the legend is cut off at '# Legend:' exactly when the grammar accepts it; the drawing
+    /// before it is untouched; CRLF line endings and trailing blanks give the same css and cells
+    #[test]
+    fn bounded_legend_cut_and_line_endings() {
+        let drawings = ["", "+--+\n|ab|\n+--+\n", "x\n\n", " \"q\" -\n"];
+        let legends = ["# Legend:\na = {fill:red}", "# Legend:\na = {f}\nb1 = {s:1;\nt:2}", "# Legend:\n_x = {}\n"];
+        let mut n = 0u64;
+        for d in drawings {
+            for l in legends {
+                for trail in ["", "\n", "  \n\n", "\t"] {
+                    let lf = format!("{}{}{}", d, l, trail);
+                    let crlf = lf.replace('\n', "\r\n");
+                    let base = CellBuffer::from(d);
+                    let a = CellBuffer::from(lf.as_str());
+                    let b = CellBuffer::from(crlf.as_str());
+                    let cells = |cb: &CellBuffer| cb.iter().map(|(c, ch)| (*c, *ch)).collect::<Vec<(Cell, char)>>();
+                    let want_css = crate::util::parser::parse_css_legend(&format!("{}{}", l, trail)).expect("legend");
+                    if cells(&a) != cells(&base) || a.legend_css().is_empty() {
+                        println!("BOUNDED-WITNESS legend not cut off cleanly (LF): {:?}", lf);
+                        panic!("legend is never drawn and the drawing is untouched");
+                    }
+                    // the css of an entry may legitimately contain the line ending it was written with
+                    let norm = |s: String| s.replace("\r\n", "\n");
+                    let css_a = a.legend_css();
+                    let css_b = norm(b.legend_css());
+                    if cells(&b) != cells(&base) || css_b != css_a {
+                        println!("BOUNDED-WITNESS CRLF changes the result for {:?}: cells {:?} css {:?} (LF: css {:?})", lf, cells(&b), css_b, css_a);
+                        panic!("CRLF renders like LF");
+                    }
+                    let want = want_css.iter().map(|(c, s)| format!(".svgbob .{}{{ {} }}", c, s)).collect::<Vec<_>>().join("\n");
+                    if css_a != want {
+                        println!("BOUNDED-WITNESS css {:?} want {:?}", css_a, want);
+                        panic!("rules in order");
+                    }
+                    n += 1;
+                }
+            }
+        }
+        println!("BOUNDED-CASES {}", n);
+    }
+
+
+    /// T6 + T7 (C04, C17): rows and cells of the drawing: a character sits at the column where its
+    /// display columns start, a wide character takes two; blanks and trailing blank lines add nothing
+    #[test]
+    fn bounded_string_and_cell_buffer() {
+        let tokens = ['a', 'é', '一', ' ', '-', '\t'];
+        let max = if thorough() { 5 } else { 4 };
+        let rows = words(&tokens, max);
+        let mut n = 0u64;
+        for r in &rows {
+            for second in ["", "x", "一"] {
+                for ending in ["\n", "\r\n"] {
+                    for trail in ["", " ", "\t ", "\n\n"] {
+                        let text = format!("{}{}{}{}{}{}", r, trail.trim_matches('\n'), ending, second, ending, if trail.contains('\n') { trail.replace('\n', ending) } else { String::new() });
+                        let sb = crate::buffer::StringBuffer::from(text.as_str());
+                        let cb = CellBuffer::from(text.as_str());
+                        // specification: walk the characters of each row, advancing by the display width
+                        let mut want: Vec<(Cell, char)> = vec![];
+                        for (y, line) in [r.as_str(), second].iter().enumerate() {
+                            let mut x = 0;
+                            for ch in line.chars() {
+                                if ch != ' ' && ch != '\t' {
+                                    want.push((Cell::new(x, y as i32), ch));
+                                }
+                                x += if ch == '一' { 2 } else { 1 };
+                            }
+                        }
+                        want.sort();
+                        let got: Vec<(Cell, char)> = cb.iter().map(|(c, ch)| (*c, *ch)).collect();
+                        if got != want {
+                            println!("BOUNDED-WITNESS text {:?}: cells {:?}, want {:?} (rows {})", text, got, want, sb.len());
+                            panic!("cells = non-blank characters at their display columns");
+                        }
+                        n += 1;
+                    }
+                }
+            }
+        }
+        println!("BOUNDED-CASES {}", n);
+    }
 }
